@@ -6,8 +6,8 @@
 import FcProofs.Props.C01
 import FcModel.Spec.C16
 import Mathlib.Data.List.Forall2
-namespace Fc
-open Spec
+namespace Fc.C03
+open Fc Fc.Spec
 
 /-! ### `sortRow` sorts: permutation, sorted, canonical -/
 
@@ -231,12 +231,12 @@ theorem fuzzyList_flatten (rel abs : Nat) (d : Nat) (P Q : List (List Int))
 
 /-! ### facts about the REGENERATED compatibility table (re-checked by `decide` on every build) -/
 
-theorem compatPairs_symm : ∀ p ∈ Gen.compatPairs, (p.2, p.1) ∈ Gen.compatPairs := by decide
+theorem compatPairs_symm : ∀ p ∈ Gen.C16.compatPairs, (p.2, p.1) ∈ Gen.C16.compatPairs := by decide
 
 theorem compatPairs_functional :
-    ∀ p ∈ Gen.compatPairs, ∀ q ∈ Gen.compatPairs, p.1 = q.1 → p.2 = q.2 := by decide
+    ∀ p ∈ Gen.C16.compatPairs, ∀ q ∈ Gen.C16.compatPairs, p.1 = q.1 → p.2 = q.2 := by decide
 
-theorem compatible_iff (a b : String) : compatible a b = true ↔ (a = b ∨ (a, b) ∈ Gen.compatPairs) := by
+theorem compatible_iff (a b : String) : compatible a b = true ↔ (a = b ∨ (a, b) ∈ Gen.C16.compatPairs) := by
   unfold compatible
   simp [Bool.or_eq_true]
 
@@ -406,13 +406,13 @@ theorem uniform_sortedRows (a : List (List Nat)) (h : Uniform a) : Uniform (sort
   | nil => rfl
   | cons x xs => simp [sortRow_length]
 
-theorem cellsOf_uniform (m : Mesh) (h : m.wfEq = true) (ct : String) : Uniform (m.cellsOf ct) := by
+theorem cellsOf_uniform (m : Mesh) (h : (wfEq m) = true) (ct : String) : Uniform (m.cellsOf ct) := by
   unfold Mesh.cellsOf
   cases hf : m.cells.find? (fun b => b.1 == ct) with
   | none => exact uniform_nil
   | some b =>
     have hb : b ∈ m.cells := List.mem_of_find?_eq_some hf
-    unfold Mesh.wfEq at h
+    unfold wfEq at h
     simp only [Bool.and_eq_true, List.all_eq_true] at h
     intro r hr
     have := h.2 b hb r hr
@@ -446,7 +446,7 @@ theorem sameCells_iff (a b : List (List Nat)) :
 
 /-- the loop over the source's cell types computes the conjunction of the per-type checks as soon
     as every type has a partner -/
-theorem cellLoop_eq (A B : Mesh) (hA : A.wfEq = true) (hB : B.wfEq = true) :
+theorem cellLoop_eq (A B : Mesh) (hA : (wfEq A) = true) (hB : (wfEq B) = true) :
     ∀ l : List String, (∀ c ∈ l, targetType B.cellTypes c ≠ none) →
       cellLoop A B l = .ok (l.all (cellOk A B)) := by
   intro l
@@ -479,7 +479,7 @@ theorem cellLoop_eq (A B : Mesh) (hA : A.wfEq = true) (hB : B.wfEq = true) :
         simp [hs]
 
 /-- the cell-type part of `mesh_equal` computes the spec and never raises -/
-theorem cellsEqual_eq (A B : Mesh) (hA : A.wfEq = true) (hB : B.wfEq = true) :
+theorem cellsEqual_eq (A B : Mesh) (hA : (wfEq A) = true) (hB : (wfEq B) = true) :
     cellsEqual A B = .ok (typesSpec A.cellTypes B.cellTypes && cellsSpec A B) := by
   unfold cellsEqual
   simp only
@@ -498,16 +498,16 @@ theorem cellsEqual_eq (A B : Mesh) (hA : A.wfEq = true) (hB : B.wfEq = true) :
     simp [ht]
 
 
-theorem wfEq_points (m : Mesh) (h : m.wfEq = true) : ∀ r ∈ m.points, r.length = m.dim := by
-  unfold Mesh.wfEq at h
+theorem wfEq_points (m : Mesh) (h : (wfEq m) = true) : ∀ r ∈ m.points, r.length = m.dim := by
+  unfold wfEq at h
   simp only [Bool.and_eq_true, List.all_eq_true] at h
   intro r hr
   simpa using h.1.1 r hr
 
 /-- the point comparison of `mesh_equal` computes `pointsSpec` -/
-theorem pointsCheck_eq (rel abs : Nat) (A B : Mesh) (hA : A.wfEq = true) (hB : B.wfEq = true) :
-    fuzzyCheck (.num rel) (.num abs) A.pointArr B.pointArr = .ok (pointsSpec rel abs A B) := by
-  unfold Mesh.pointArr
+theorem pointsCheck_eq (rel abs : Nat) (A B : Mesh) (hA : (wfEq A) = true) (hB : (wfEq B) = true) :
+    fuzzyCheck (.num rel) (.num abs) (pointArr A) (pointArr B) = .ok (pointsSpec rel abs A B) := by
+  unfold pointArr
   rw [fuzzyCheck_num_f64 _ _ _ _ _ _ (by simp)]
   congr 1
   unfold pointsSpec
@@ -529,7 +529,7 @@ theorem pointsCheck_eq (rel abs : Nat) (A B : Mesh) (hA : A.wfEq = true) (hB : B
 
 /-- **model = spec** for `mesh_equal`: on well-formed meshes the modelled verdict is never an
     exception and equals the declarative statement -/
-theorem meshEqualWith_eq_spec (rel abs : Nat) (A B : Mesh) (hA : A.wfEq = true) (hB : B.wfEq = true) :
+theorem meshEqualWith_eq_spec (rel abs : Nat) (A B : Mesh) (hA : (wfEq A) = true) (hB : (wfEq B) = true) :
     meshEqualWith rel abs A B = .ok (meshEqualSpec rel abs A B) := by
   unfold meshEqualWith meshEqualSpec
   rw [pointsCheck_eq rel abs A B hA hB]
@@ -658,7 +658,7 @@ theorem meshEqualSpec_symm (rel abs : Nat) (A B : Mesh) :
 /-! ### the readable form of "the meshes are equal" -/
 
 /-- coordinate `j` of point `i` -/
-def Mesh.coord (m : Mesh) (i j : Nat) : Int := (m.points.getD i []).getD j 0
+def coord (m : Mesh) (i j : Nat) : Int := (m.points.getD i []).getD j 0
 
 /-- `t` (a type of B) is the partner of `c` (a type of A): the same type, or a compatible type where
     each of the two exists on its own side only -/
@@ -683,8 +683,8 @@ theorem sameCells_of_cellsMatch (a b : List (List Nat)) (h : CellsMatch a b) : s
 theorem pointsSpec_iff (rel abs : Nat) (A B : Mesh) :
     pointsSpec rel abs A B = true ↔
       A.numPoints = B.numPoints ∧ A.dim = B.dim ∧
-      ∀ i j, i < A.numPoints → j < A.dim → docFormula f64 (A.coord i j) (B.coord i j) rel abs = true := by
-  unfold pointsSpec Mesh.numPoints Mesh.coord
+      ∀ i j, i < A.numPoints → j < A.dim → docFormula f64 (coord A i j) (coord B i j) rel abs = true := by
+  unfold pointsSpec Mesh.numPoints coord
   simp only [Bool.and_eq_true, beq_iff_eq, List.all_eq_true, List.mem_range, and_assoc]
   constructor
   · rintro ⟨h1, h2, h3⟩
@@ -706,7 +706,7 @@ theorem partner_unique (A B : Mesh) (c t t' : String) (ht : t ∈ B.cellTypes) (
 /-- the declarative spec, spelled out with quantifiers (both directions over the type sets) -/
 theorem meshEqualSpec_elim (rel abs : Nat) (A B : Mesh) (h : meshEqualSpec rel abs A B = true) :
     (A.numPoints = B.numPoints ∧ A.dim = B.dim ∧
-      ∀ i j, i < A.numPoints → j < A.dim → docFormula f64 (A.coord i j) (B.coord i j) rel abs = true) ∧
+      ∀ i j, i < A.numPoints → j < A.dim → docFormula f64 (coord A i j) (coord B i j) rel abs = true) ∧
     (∀ c ∈ A.cellTypes, ∃ t ∈ B.cellTypes, Partner A B c t ∧ CellsMatch (A.cellsOf c) (B.cellsOf t)) ∧
     (∀ t ∈ B.cellTypes, ∃ c ∈ A.cellTypes, Partner A B c t ∧ CellsMatch (A.cellsOf c) (B.cellsOf t)) := by
   have h' : meshEqualSpec rel abs B A = true := by rw [← meshEqualSpec_symm]; exact h
@@ -787,12 +787,12 @@ theorem ladder_inv {α} (ops : LadderOps α) (fl : LadderFlags) (Rel : α → α
 
 /-! ### single-site modifications keep the mesh well-formed and change what they say they change -/
 
-theorem wfEq_iff (m : Mesh) : m.wfEq = true ↔
+theorem wfEq_iff (m : Mesh) : (wfEq m) = true ↔
     (∀ r ∈ m.points, r.length = m.dim) ∧ m.cellTypes.Nodup ∧ ∀ b ∈ m.cells, Uniform b.2 := by
-  unfold Mesh.wfEq Uniform
+  unfold wfEq Uniform
   simp only [Bool.and_eq_true, List.all_eq_true, beq_iff_eq, decide_eq_true_eq, and_assoc]
 
-theorem wfEq_setCoord (m : Mesh) (h : m.wfEq = true) (i j : Nat) (x : Int) : (setCoord m i j x).wfEq = true := by
+theorem wfEq_setCoord (m : Mesh) (h : (wfEq m) = true) (i j : Nat) (x : Int) : (wfEq (setCoord m i j x)) = true := by
   rw [wfEq_iff] at h ⊢
   obtain ⟨h1, h2, h3⟩ := h
   refine ⟨?_, h2, h3⟩
@@ -808,8 +808,8 @@ theorem wfEq_setCoord (m : Mesh) (h : m.wfEq = true) (i j : Nat) (x : Int) : (se
     exact h1 r hr
 
 theorem coord_setCoord (m : Mesh) (i j : Nat) (x : Int) (hi : i < m.points.length)
-    (hj : j < (m.points.getD i []).length) : (setCoord m i j x).coord i j = x := by
-  unfold Mesh.coord setCoord
+    (hj : j < (m.points.getD i []).length) : coord (setCoord m i j x) i j = x := by
+  unfold coord setCoord
   simp only
   have e1 : (m.points.set i ((m.points.getD i []).set j x)).getD i [] = (m.points.getD i []).set j x := by
     rw [List.getD_eq_getElem?_getD, List.getElem?_set_self hi]; rfl
@@ -826,7 +826,7 @@ theorem cellTypes_dropBlock (m : Mesh) (ct t : String) :
   · rintro ⟨⟨b, hb, rfl⟩, hne⟩
     exact ⟨b, ⟨hb, hne⟩, rfl⟩
 
-theorem wfEq_dropBlock (m : Mesh) (h : m.wfEq = true) (ct : String) : (dropBlock m ct).wfEq = true := by
+theorem wfEq_dropBlock (m : Mesh) (h : (wfEq m) = true) (ct : String) : (wfEq (dropBlock m ct)) = true := by
   rw [wfEq_iff] at h ⊢
   obtain ⟨h1, h2, h3⟩ := h
   refine ⟨h1, ?_, ?_⟩
@@ -836,4 +836,4 @@ theorem wfEq_dropBlock (m : Mesh) (h : m.wfEq = true) (ct : String) : (dropBlock
     unfold dropBlock at hb
     exact h3 b (List.mem_filter.mp hb).1
 
-end Fc
+end Fc.C03
